@@ -14,27 +14,53 @@ N = {"quick": 6000, "thorough": 30000}
 CASE_CPU_SECONDS = 240
 NMAX = 8
 RULE = (
-    "real searches over the word universes (18 start classes x 11 packs: symmetries, inferral, factories with ready "
-    "and foreign-parent rules, non-atom verification with a pack, one-way unary rules, two expansion sets, iterative "
-    "x RuleDB / RuleDBForgetStrategy / RuleDBForest with and without reverse rules x expand_verified x smallest x "
-    "proof-tree seed). Each returned specification is turned into one descriptor per class (constructor form, "
-    "extra_parameters dictionaries, minimum sizes, declared shifts) and evaluated bottom-up by the extracted model "
-    "(C09 constructors, order dictated by the declared shifts); every class's terms for n <= 8 and all parameter "
-    "values are compared with the implementation's get_terms and, by the oracle, with brute-force enumeration. "
-    "12% of the cases are searches over word classes WITH STATISTICS (harness/universes/c08_stats.py; statistics kept, "
-    "summed, dropped, merged, and added along an equivalence path), compared for every parameter tuple. "
+    "88% of the cases: real searches over the word universes (harness/universes/words_ext.py: 28 fixed start classes x "
+    "18 named packs + the parametric one-way family `ow3|..` — symmetries, inferral, factories with ready and "
+    "foreign-parent rules, non-atom verification with a pack, one-way unary rules, two expansion sets, iterative, "
+    "letterwise — x RuleDB / RuleDBForgetStrategy / RuleDBForest with and without reverse rules x expand_verified x "
+    "smallest (never with forest/iterative) x proof-tree seed x number of work packets between two has_specification() "
+    "calls; the search loop is the harness's replica of auto_search, harness/universes/runs.py). "
+    "12%: searches over word classes WITH STATISTICS (harness/universes/c08_stats.py; statistics kept, summed, "
+    "dropped, merged, and added along an equivalence path) through the repository's own auto_search(), default RuleDB "
+    "and the two statistics packs only (no symmetries / reverse rules / forest / forget / smallest / iterative there). "
+    "Each returned specification is turned into one descriptor per class (constructor form, extra_parameters "
+    "dictionaries, minimum sizes, declared shifts) and evaluated bottom-up by the extracted model (C09 constructors, "
+    "order dictated by the declared shifts); every class's terms for n <= 8 and all parameter values are compared with "
+    "the implementation's get_terms and, by the oracle, with brute-force enumeration. "
     "Non-trivial: a specification with >= 4 rules and a non-eventually-constant count; distinct = distinct case."
 )
 TRUSTED = [
-    "modelled, not verified: specification.py/rule.py evaluation (Rule.get_terms/_ensure_level through children) — "
-    "theorem C01_spec_correct is about the recursive evaluator Spec/Eval.v `eval`; the executable model evaluates "
-    "bottom-up in the order the declared shifts allow (same unique solution by C01_unique_solution) with the C09 "
-    "constructor models; tied to the code by this correspondence",
-    "conversion of Python rule objects into descriptors (harness/props/c01.py, c09.py)",
+    "modelled, not verified: specification.py/rule.py evaluation (Rule.get_terms/_ensure_level through the children's "
+    "get_terms). The EXTRACTED evaluator (Spec/CountRun.v rounds, bottom-up in the order the declared shifts allow) is "
+    "proved to compute Spec/Eval.v `eval` of the specification srule_of(descriptors) on every level it computes "
+    "(C01_rounds_is_eval: a refinement theorem, no longer an appeal to uniqueness) and, under the per-form contracts, "
+    "the true tables (C01_rounds_correct / C01_run_correct); that `eval` transcribes the recursion of the code "
+    "is tied to the code only through this correspondence (the model's tables vs get_terms of every class, n <= 8)",
+    "conversion of Python rule objects into descriptors (harness/props/c01.py describe/_classify_rule/_deps, c09.py): "
+    "which constructor form a rule has, the labels, the dictionaries and the declared shifts are read off the real "
+    "rule objects by trusted Python; for an EquivalencePathRule the declared dependency is written as (last class, "
+    "shift 0) instead of rule.shifts(), for an EquivalenceRule whose shifts() has the wrong length the original "
+    "rule's shift is used",
 ]
 ASSUMPTIONS = [
-    "C01_spec_correct assumes its hypotheses per rule: genuine (C09 theorems / strategy contract), local (C10 theorems), "
-    "closed and one rule per class (C02), productive (C02/C03/C11); they are re-checked per instance by the C02 oracle",
+    "theorems about run_c01 (C01_run_correct, C01_rounds_correct) assume per descriptor (1) deps_shape — the declared "
+    "dependencies are the rule's children in order and every declared shift is at most the one the regenerated shift "
+    "functions compute (decidable; checked once, outside the check, on the descriptors of 1050 generated cases — 13000 "
+    "descriptors of forms 0, 1, 3, 6, 7; forms 2, 4, 5 did not occur — no violation) and "
+    "(2) rule_contract — the hypotheses of the C09 theorems stated for the TRUE tables: well-formed extra_parameters "
+    "dictionaries, the minimum_size/is_atom contract (Vanish), non-negative counts and statistics, and the "
+    "genuineness identity of the constructor (union_genuine / product_genuine); verified classes: the table handed to "
+    "the model is good up to the computed size. Nobody proves a strategy genuine: on the word universes it is implied "
+    "only by the oracle's comparison with brute force (n <= 8)",
+    "not covered by rule_contract (would stay hypotheses): a Quotient whose parent has no parameter while a child has "
+    "one; a Complement/Quotient with a sibling that is itself counted by a Complement (entry-wise assertion of the "
+    "model on raw tables); constructors other than DisjointUnion/CartesianProduct and their reverses",
+    "C01_spec_correct / _unique_solution / _choice_independent / pipeline theorems: productivity (pumps) of the keys "
+    "of the RETURNED (grouped) specification is a hypothesis except along the forest pipeline, whose Hfound hypothesis "
+    "(every extracted key was turned back into a rule with that key) is a contract on ForestRuleExtractor._find_rule "
+    "checked by a C11 extra check on a few fixed searches only; inside C01 the only per-instance productivity signal is "
+    "the model's status `stuck` (C01_stuck_not_productive_partial: no exception, non-negative declared shifts => a "
+    "stuck class does not pump)",
     "verified classes: the table handed to the model is the rule's own get_terms (oracle by hypothesis); the oracle "
     "compares it with brute force",
 ]
@@ -282,29 +308,47 @@ def classify(case, res):
     return tags
 
 
-TECHNIQUE = "Coq proof (unique solution of a closed, productive specification with genuine, local rules: induction on the derivation of computability) + extracted evaluator / implementation correspondence on real searches"
+TECHNIQUE = (
+    "Coq proofs (unique solution of a productive specification with genuine, local rules; adapter from rule descriptors "
+    "to such rules with `local` derived from C10 and `genuine` from C09; refinement and correctness of the extracted "
+    "bottom-up evaluator) + extracted evaluator / implementation correspondence on real searches"
+)
 LEVEL_TEXT = (
-    "C01_spec_correct: for every specification (any term type, any rule operators) that is closed with one rule per "
-    "class, whose rules are genuine (C09) and local w.r.t. their declared shifts (C10) and all of whose classes pump "
-    "w.r.t. those shifts (C03's notion), the recursive evaluation of the code returns the true terms for every class, "
-    "size and parameter value once the fuel is large enough; C01_unique_solution / C01_choice_independent: such a "
-    "specification has no other solution, so rule database, proof-tree choice and time slicing cannot change the counts. "
-    "The hypotheses are theorems of C09/C10/C03/C11 or per-instance verdicts of C02; the executable evaluator (C09 "
-    "constructor models, bottom-up in declared-shift order) is compared with get_terms of every class of every "
-    "specification returned by real searches, and the oracle compares with brute force. "
-    "C01_forest_pipeline_correct / _unique chain C03, C11 and C01 for RuleDBForest with NO productivity hypothesis "
-    "left: if the table-method model run on the inserted forest keys (any order, any set.pop() resolution) reports "
-    "the start class as pumping, the extractor model returns keys, and each extracted key was turned back into a rule "
-    "with that key, then genuine and local rules make the recursive evaluation return the true counts of the start "
-    "class at every size, with no other solution (C03 sound_complete and C11 extract_productive discharge the "
-    "productivity hypothesis of C01_spec_correct). C01_forest_pipeline_total removes the two 'the run returned' "
-    "hypotheses as well (C03_terminates, C11_total) and adds one rule per class (C11_one_rule_per_class_total): for "
-    "EVERY list of inserted keys, a pumping answer of the total table-method run implies that the extractor returns "
-    "a one-rule-per-class rule set whose genuine, local rules evaluate to the truth."
+    "About the abstract evaluator `eval` (Spec/Eval.v; any term type, any rule operators): C01_spec_correct — if every "
+    "forest key considered belongs to a rule of the specification, rules are genuine and local w.r.t. their declared "
+    "shifts and a class pumps w.r.t. those keys (C03's notion), `eval` returns the true terms of that class for every "
+    "size and parameter value once the fuel is large enough; C01_unique_solution / C01_choice_independent: no other "
+    "solution, so two specifications satisfying the hypotheses count identically. C01_forest_pipeline_correct / "
+    "_unique / _total chain C03 and C11 for RuleDBForest: a pumping answer of the (total) table-method model on the "
+    "inserted keys and the extractor's result discharge the productivity hypothesis, under Hfound (each extracted key "
+    "was turned back into a rule with exactly that key — a contract on the ungrouped keys, see ASSUMPTIONS). "
+    "About the rules of the LIBRARY'S constructors (new): srule_of turns a rule descriptor as run_c01 receives it into "
+    "such a rule whose operator is the C09 model's get_terms over providers. C01_srule_of_local: `local` w.r.t. the "
+    "DECLARED shifts is a theorem for forms 0-7 (union, product, Complement, Quotient, both equivalence forms, path, "
+    "verified), from a bridge lemma (the C09 term model reads only what the C10 reads model lists: "
+    "C01_term_model_reads_what_the_reads_model_lists) and C10_reads_respect_declared_shifts over the regenerated shift "
+    "functions. C01_srule_of_genuine_up_to_representation / C01_constructor_step_sound: under the per-form contract "
+    "about the true tables (the hypotheses of C09_union, C09_product, C09_complement, C09_quotient_params, "
+    "C09_quotient_parameter_free, C09_equivalence*, C09_path) the operator maps tables that MEAN the true ones to such "
+    "a table and raises nothing; C01_canonical_form (teq a b -> tnorm a = tnorm b) turns this into Leibniz equality: "
+    "C01_srule_ofN_local / C01_srule_ofN_genuine are the hypotheses of C01_spec_correct literally for the "
+    "canonical-form operator, and C01_spec_correct_constructors is C01_spec_correct with only the contracts and "
+    "productivity left. "
+    "About the EXTRACTED function (new): C01_rounds_is_eval — every level the bottom-up evaluator computes (any fuel) "
+    "equals `eval` of srule_of of the descriptors for all large fuel (raw tables, no hypothesis on the tables); "
+    "C01_rounds_correct / C01_run_correct — under deps_shape and the contracts, whenever run_c01 reports a class "
+    "complete (status 0) the levels 0..N it prints are the canonical true tables; C01_run_fuel_suffices — the fuel "
+    "run_c01 uses reaches a fixed point; C01_stuck_not_productive_partial — with no exception and non-negative "
+    "declared shifts a class reported stuck does not pump, and C01_productive_is_complete_partial — a class that pumps "
+    "is reported complete (both partial: reverse product rules declare negative shifts). "
+    "The executable evaluator is compared with get_terms of every class of every specification returned by real "
+    "searches, and the oracle compares with brute force."
 )
 LEVEL_NOTE = (
-    "The link between the bottom-up executable evaluator and the recursive `eval` of Spec/Eval.v is the uniqueness "
-    "theorem, not a separate refinement proof. Genuineness of user strategies is the documented contract (checked by "
-    "brute force on the shipped universes). Classes with extra statistics: 12% of the searches (c08_stats universes), the rest use the "
-    "parameter-free word classes; C09's correspondence covers statistics at the rule level. Trusted: Coq kernel, extraction, harness."
+    "What is NOT a theorem: that the returned specification's rules satisfy the contracts (genuineness of strategies is "
+    "the documented contract, checked by brute force on the shipped universes only, n <= 8), that its classes pump "
+    "outside the forest pipeline, and that describe() reads the rule objects correctly (trusted Python). The C02 oracle "
+    "runs on C02's own cases, not on C01's. Classes with extra statistics: 12% of the searches (c08_stats universes, "
+    "default RuleDB only); the rest use the parameter-free word classes; C09's correspondence covers statistics at the "
+    "rule level. Trusted: Coq kernel, extraction, harness."
 )
